@@ -417,7 +417,7 @@ pub fn run_forged(ctx: &Ctx) {
     let mut out = Out::sharded(ctx.shard);
     let mut r = Rng::new(ctx.seed ^ 0xC01);
     let mut d = Driver::start();
-    let rounds = if ctx.thorough { 12 } else { 1 };
+    let rounds = if ctx.thorough { 30 } else { 1 };
     let mut prev_honest: std::collections::HashMap<char, (Vec<u8>, Vec<u8>)> = Default::default(); // ver -> (lt seed, response)
     for round in 0..rounds {
         for &ver in &['G', 'I'] {
